@@ -3,6 +3,22 @@ import json, os
 VERIF = os.path.dirname(os.path.dirname(os.path.abspath(__file__)))
 
 CHECKS = {
+    "C06": dict(
+        category="model_checking",
+        text="TLC explores every feasible CFG path of Ownership.tla (an abstract ownership machine: per-leaf owned-reference counters, definedness "
+             "states, lender relation; invariants NoLeak, NoDoubleRelease, NoUndefRead, NoUseAfterRelease) over every function of the repository's "
+             "mypyc test corpus; the functions come from the working tree's own parse_and_typecheck + compile_modules_to_ir at two stages (after "
+             "insert_ref_count_opcodes / spills, and final IR) and are exported generically from the ops' own attributes (stolen(), is_borrowed, "
+             "error_kind, ...). The contracts the machine reads off the IR are bound to the generated C: probe programs and a generated family are "
+             "compiled by the tree's mypyc and run in a child on tracked objects; sys.getrefcount deltas must be 0 for every way of leaving, "
+             "UnboundLocalError / AttributeError must match CPython, a dead child is a violation, and the machine's exit-kind predictions must "
+             "contain what was observed. Five spec-level mutants are rejected on every run.",
+        design_ref="DESIGN.md 5.C06, notes/C06.md",
+        note="heap state across yields, out-parameters and bitmap-tracked locals are probed only; OOM paths never exercised; quick: irbuild / "
+             "refcount / exceptions programs + run-generators / run-exceptions + a seeded 12 % of the other run programs; nine known-finding keys "
+             "from four defects (spilled borrowed values, generator close(), failing Cast, list SetItem out of range)",
+        technique="TLA+ spec executing exported mypyc IR as data, model-checked with TLC; real IR from the working tree's pipeline is the bound artefact; compiled probes replayed dynamically against the machine's predictions and CPython",
+    ),
     "C01": dict(
         category="model_checking",
         text="FlowTyping.tla generates programs of a small typed fragment token by token and checks them with a transcription of binder.py and "
